@@ -26,9 +26,11 @@ WithReferrers == {Sc("PR", "put_refd", "", "A2", FALSE), Sc("PR", "put_ref", "ar
 WithLeftovers == {Sc("PT", "put_tag", "v3", "M3", TRUE), Sc("PT", "tag_delete", "v2", "", TRUE), Sc("PT", "copy", "v3", "M3", TRUE)}
 \* image copy with referrers: kept apart, its interrupted form is not repaired by a repetition (findings/C07-2.md)
 RefCopy == {Sc("E", "copy_ref", "v1", "M1", TRUE), Sc("P1", "copy_ref", "v1", "M1", TRUE)}
+RefCopyQ == {Sc("P1", "copy_ref", "v1", "M1", TRUE)}
 Main == FromEmpty \cup OneTag \cup TwoTags \cup WithIndex \cup WithReferrers \cup WithLeftovers
 Populated == OneTag \cup TwoTags \cup WithIndex \cup WithReferrers \cup WithLeftovers
 All == Main \cup RefCopy
+IxCopy == {Sc("E", "copy", "ix", "IX", TRUE), Sc("P1", "copy", "ix", "IX", TRUE)}
 \* quick tier: without the two scenarios that copy a two-image index from scratch with one goroutine per blob
 Quick == Main \ {Sc("E", "copy", "ix", "IX", TRUE), Sc("P1", "copy", "ix", "IX", TRUE)}
 =============================================================================
